@@ -38,6 +38,8 @@ struct Env {
     std::vector<int> write_plan;      // kind for the k-th device pwrite (default full)
     int persistent_from = -1;         // every device pwrite with index >= this fails with EIO
     int open_fail_at = -1;            // index of the device open() that fails (EACCES); -2: all
+    int lock_fail_at = -1;            // index of the device flock() that fails (EWOULDBLOCK: somebody else holds the file); -2: all
+    int nlocks = 0;
     int nwrites = 0, nopens = 0, ncloses = 0;
     int failed_writes = 0;            // pwrite calls answered with an error
     int zero_writes = 0;
@@ -65,6 +67,15 @@ extern "C" int open64(const char* path, int flags, ...)
     mode_t mode = 0;
     if (flags & O_CREAT) { va_list ap; va_start(ap, flags); mode = (mode_t)va_arg(ap, int); va_end(ap); }
     return open(path, flags, mode);
+}
+#include <sys/file.h>
+extern "C" int flock(int fd, int op)
+{
+    if (ENV.in_device) {
+        int k = ENV.nlocks++;
+        if (ENV.lock_fail_at == k || ENV.lock_fail_at == -2) { errno = EWOULDBLOCK; return -1; }
+    }
+    return (int)syscall(SYS_flock, fd, op);
 }
 extern "C" int close(int fd)
 {
